@@ -9,7 +9,9 @@ CFG = {
             "driven on the virtual clock by 8-70 calls (AllowRequest / AllowOperation / CleanupConnection; 1-4 addresses, "
             "1-3 connections, all four operation types; rates {0,1,2,3,10,1000} + dyadic fractions, bursts {0,1,2,5,100}, "
             "mount per minute {0,15,30,60,120,600,60000}, cleanup {1ns,1s,5min}; a 130-address variant exceeds the "
-            "100-deletions-per-pass cap). Stream C18: clock advances on the 2^-9 s grid (bursts, exact refill periods, "
+            "100-deletions-per-pass cap; 12% conn-flood cases: per-connection limit below the per-IP limit, one connection sends 15-75 "
+            "back-to-back requests, then 2-4 fresh clients one request each; also over TCP in C18h)."
+            " Stream C18: clock advances on the 2^-9 s grid (bursts, exact refill periods, "
             "one tick short/long, seconds, ~5 minutes) -> bit-for-bit. Stream C18ns: arbitrary ns advances and non-dyadic "
             "rates (0.1, 1/3, mount 1,7,10,59 per minute) -> a disagreement is tolerated only with the exact level "
             "within 1e-6 of 1. Stream C18h: the limiters THROUGH the server - a real AbsfsNFS with EnableRateLimiting and small "
